@@ -19,8 +19,12 @@ open Out
 
     The trees covered are all of `STy`: map-backed leaves (C01's `WF1`), scopes, slices and maps of
     struct-mapped objects, struct-mapped objects nested to any depth (by value, behind pointers, with
-    defaults at every level). `_partial` only because of what the struct model itself leaves out
-    (one-ofs over struct-mapped members, recursive struct types, typed enums) and because `RTOK` is
+    defaults at every level), and one-ofs over struct-mapped members of pairwise distinct struct
+    types (`RTOK.oneOf`: separate discriminator, which Serialize attaches; `RTOK.oneOfInl`: inlined
+    discriminator, with or without treat-empty-as-default - a dropped zero discriminator is attached
+    again by the one-of; `Eqv.oneOf`: the two structs are identified as values of ONE member).
+    `_partial` only because of what the struct model itself leaves out
+    (one-ofs mixing struct-mapped and map-backed members, recursive struct types, typed enums) and because `RTOK` is
     a sufficient condition: per pair it asks exact typing (`exactObjB`) and `rtPropB` - the latter's
     clauses are each necessary (`C01_struct_needs_zero_accepted` below and the doc comment of
     `rtPropB`), the former excludes narrow / unsigned / defined-type fields, whose values come back
